@@ -26,7 +26,7 @@ from prosemirror.model import Fragment, Schema
 PROPERTY = "C15"
 BOUNDS = ("fill_before: expressions of size <= 3 (thorough 4) over the three alphabets of C06 (incl. non-generatable "
           "text and required-attribute types), every automaton state, following sequences of length <= 2, start index "
-          "0..len, both to_end values, fillers up to length n_states+1; wrappers: 3-type nested schemas with content "
+          "0..len, both to_end values, plus 12 larger expressions whose first alternative cannot take the following content (backtracking),  fillers up to length n_states+1; wrappers: 3-type nested schemas with content "
           "drawn from 7 expressions (all well-founded combinations) and the catalogue schemas, every state, every target")
 ASSUMPTIONS = ["match positions are represented by a shortest child sequence reaching the state (sound given C06)"]
 
